@@ -459,3 +459,42 @@ Proof.
   rewrite <- (app_nil_r (concat _)). rewrite read_pairs_export; [|assumption|unfold ulong_max; lia].
   cbn [app]. now rewrite Hperm.
 Qed.
+
+(* ---- TMCG_Stack<TMCG_Card> ---------------------------------------------------------------------- *)
+Lemma export_tcard_nohat c : Forall (fun x => x <> hat) (export_tcard c).
+Proof.
+  unfold export_tcard.
+  repeat (apply Forall_app; split); try (repeat constructor; discriminate);
+    try (apply plain_not_hat, encode_dec_plain); apply write_fields_nohat.
+Qed.
+
+Lemma read_tcards_export st rest : Forall wf_tcard st ->
+  read_tcards (length st) (concat (map (fun c => export_tcard c ++ [hat]) st) ++ rest) = Some (st, rest).
+Proof.
+  induction 1 as [|c st Hc _ IH]; [reflexivity|].
+  cbn [length read_tcards map concat]. unfold field. rewrite <- ?app_assoc. cbn [app].
+  rewrite split_at_app by apply export_tcard_nohat.
+  rewrite (tcard_roundtrip c Hc), IH. reflexivity.
+Qed.
+
+Theorem tstack_roundtrip st : (1 <= length st <= Z.to_nat TMCG_MAX_CARDS)%nat -> Forall wf_tcard st ->
+  import_tstack [] (export_tstack st) = Some st.
+Proof.
+  intros H Hwf. unfold import_tstack, export_tstack.
+  cbn [app]. rewrite cm_magic by apply magic_nohat_stk.
+  rewrite <- ?app_assoc. cbn [app].
+  rewrite import_size_encode by lia.
+  rewrite Nnat.Nat2N.id.
+  rewrite <- (app_nil_r (concat _)). rewrite read_tcards_export by exact Hwf. reflexivity.
+Qed.
+
+Theorem tstack_import_appends old st : (1 <= length st <= Z.to_nat TMCG_MAX_CARDS)%nat -> Forall wf_tcard st ->
+  import_tstack old (export_tstack st) = Some (old ++ st).
+Proof.
+  intros H Hwf. unfold import_tstack, export_tstack.
+  cbn [app]. rewrite cm_magic by apply magic_nohat_stk.
+  rewrite <- ?app_assoc. cbn [app].
+  rewrite import_size_encode by lia.
+  rewrite Nnat.Nat2N.id.
+  rewrite <- (app_nil_r (concat _)). rewrite read_tcards_export by exact Hwf. reflexivity.
+Qed.
